@@ -18,31 +18,31 @@ CLAIMED = {
         "of Agg(TrueJac), TrueJac defined by forward mode. Scenarios exported by TLC (content-hash sample in quick, one "
         "third in thorough) are replayed into the real backward with exact equality in float32/float64 over assorted shapes "
         "and argument presentations, with every aggregator via the matrix/own-slice split; random larger programs are "
-        "recorded and validated by TLC (TraceBackward)."),
+        "recorded and validated by TLC (TraceBackward). Presentations: inputs as list/tuple/iterator/generator/dict view, tensors also as the list of their scalars, several torch realisations per abstract op; float64 precision runs (values not representable in float32) against a torch.autograd.grad twin; the recording aggregator carries a forward hook (aggregator(J) = Module.__call__); the implementation-shaped layer is bound to the code by stage traces (TraceBackwardImpl, DRIFT only)."),
  "C02": dict(mods="MtlBackward.tla (instantiates Backward.tla), TraceMtlBackward.tla", ref="7 C02",
    text="TLC checks (exhaustive small universe of trunks x head templates x parameter-list modes, plus simulation of a "
         "larger one) that per-task Grad/Accumulate, Stack and the instantiated Jac/Aggregate/Accumulate actions refine the "
         "property stated by forward mode with the features cut out as independent variables; exported scenarios are replayed "
-        "into the real mtl_backward with exact equality; random trunk/head programs are recorded and validated by TLC."),
+        "into the real mtl_backward with exact equality; random trunk/head programs (up to 5 tasks) are recorded and validated by TLC; float64 precision runs, forward-hook semantics and stage traces (TraceMtlImpl, DRIFT only) as in C01."),
  "C05": dict(mods="Backward.tla (TwinAutograd, RevEqualsFwd), MtlBackward.tla (TwinAutograd)", ref="7 C05",
    text="TLC checks on every program/call that the slice of w^T TrueJac equals the adjoint of one reverse sweep with "
         "cotangent w (specification-level statement of Constant(w) = torch.autograd.backward) and reverse = forward mode; "
         "each exported scenario is executed by torchjd (Constant with negative/zero weights, Sum, Mean) and by "
         "torch.autograd.backward on an identically built twin graph, .grad compared by equality (Mean: against the exact "
-        "rational from TLC's integer Jacobian)."),
+        "rational from TLC's integer Jacobian); float64 precision runs and vmap-hostile programs (where differentiation is sequential by contract) are compared with the twin as well."),
  "C06": dict(mods="Accumulation.tla, FixedProg.tla, TraceAccumulation.tla", ref="7 C06",
    text="TLC explores every history of length <= 3 (4 thorough) over 7 backward/mtl_backward calls and the user's .grad "
         "manipulations (in-place zero, None, in-place edit, replacement) x 3 initial contents and checks: values never "
         "change, only requested leaves change, in place iff a .grad exists else fresh memory, live memories pairwise "
         "distinct, k identical calls = k times the update. Every full-length history is replayed step by step on the real "
         "code (values by equality, storage pointers and object identity for the memory discipline); random histories of "
-        "length 12 are validated by TLC (TraceAccumulation)."),
+        "length 12 are validated by TLC (TraceAccumulation). A fresh .grad must not recycle any gradient tensor seen before; mixed-precision histories; whole training loops (TrainLoop.tla: forward, (mtl_)backward, SGD(lr=1) step, zero_grad in both modes) are computed exactly by the specification and compared with a real torch.optim.SGD loop."),
  "C07": dict(mods="JacChunks.tla, TraceJacChunks.tla", ref="7 C07",
    text="TLC checks the chunk plan (count = ceil(m/k), sizes <= k, no vmap when sequential, rows assembled in order, "
         "refinement of the property layer, termination) for every (m,k,retain), m <= 12 (24 thorough); every such triple is "
         "executed on the real backward and mtl_backward; the sweeps observed by an in-graph probe are validated by TLC "
         "against the property layer; values compared with TLC's expectation by equality; a vmap-hostile op must "
-        "differentiate in sequential mode."),
+        "differentiate in sequential mode. The differentiation requests of the repository's own autojac/doc tests are harvested by a pytest plugin and validated by TLC; mixed-precision and null-task variants; the counting clause for unbounded m and k is discharged as an inductive invariant by Apalache (reported in the evidence)."),
  "C12": dict(mods="LeafWalk.tla (PlusCal), TraceLeafWalk.tla", ref="7 C12",
    text="TLC checks a PlusCal transcription of the leaf walk against the declarative definition (AccumulateGrad nodes "
         "reachable avoiding excluded; tensor-level 'leaves that matter') on all programs with <= 4 tensors (5 thorough), "
